@@ -534,14 +534,26 @@ def selftest(prop, seed, tier, ks_inproc, pool_digests):
         env = dict(os.environ)
         env['PYTHONHASHSEED'] = hs
         env['VERIF_SEED'] = str(seed)
-        p = subprocess.run([os.path.join(VERIF, 'check'), prop.ID, '--digests', ','.join(map(str, ks)),
-                            '--tier', tier], env=env, capture_output=True, text=True, timeout=600, cwd=VERIF)
-        if p.returncode != 0:
-            return False, 'fresh interpreter failed: ' + p.stderr[-500:], {}
-        got = json.loads(p.stdout.strip().splitlines()[-1])
-        for k in ks:
-            if got[str(k)] != local[k]:
-                return False, 'run %d differs under PYTHONHASHSEED=%s' % (k, hs), {}
+        bad = None
+        for attempt in (1, 2):
+            # A dependence on the hash seed is deterministic for a fixed PYTHONHASHSEED, so it shows in both attempts; a mismatch
+            # that does not repeat comes from the environment (seen once, thorough tier under heavy load while /repo was being
+            # edited, not reproducible afterwards: DESIGN 8.2) and is recorded, not reported.
+            p = subprocess.run([os.path.join(VERIF, 'check'), prop.ID, '--digests', ','.join(map(str, ks)),
+                                '--tier', tier], env=env, capture_output=True, text=True, timeout=600, cwd=VERIF)
+            if p.returncode != 0:
+                bad = 'fresh interpreter failed: ' + p.stderr[-500:]
+                continue
+            got = json.loads(p.stdout.strip().splitlines()[-1])
+            diff = [k for k in ks if got[str(k)] != local[k]]
+            if not diff:
+                if bad is not None:
+                    fresh['unrepeatable_mismatch_under_%s' % hs] = bad
+                bad = None
+                break
+            bad = 'run %d differs under PYTHONHASHSEED=%s' % (diff[0], hs)
+        if bad is not None:
+            return False, bad + ' (twice)', {}
         fresh[hs] = len(ks)
     return True, 'ok', {'in_process_twice': len(local), 'pool_vs_main': len([k for k in ks_inproc if k in pool_digests]),
                         'fresh_interpreter_hashseeds': fresh}
